@@ -411,7 +411,7 @@ def rule_r6(chk, rid="C01-R6"):
     from .. import memo
     chk.rule(rid, "forward expansions are memoised per representation: each memo list handed to _get_solution_expansion is used "
              "with one set of matrices only (square and triangular expansions never share a list), and the memo lists are reset "
-             "wherever the matrices they derive from are assigned", floor=3)
+             "wherever the matrices they derive from are assigned", floor=3, shape_independent=True)
     memo.self_check()
     m = chk.repo.mod(SOL)
     calls = []
@@ -452,12 +452,12 @@ def rule_r6(chk, rid="C01-R6"):
 
 
 def run(chk):
-    rule_r1(chk)
-    rule_r2(chk)
-    rule_r3(chk)
-    rule_r4(chk)
-    rule_r5(chk)
-    rule_r6(chk)
+    chk.guard(rule_r1, chk)
+    chk.guard(rule_r2, chk)
+    chk.guard(rule_r3, chk)
+    chk.guard(rule_r4, chk)
+    chk.guard(rule_r5, chk)
+    chk.guard(rule_r6, chk)
     chk.assumptions = [
         "that the formulas built from the blocks are the Blanchard-Kahn solution (signs, factors inside well-shaped products), "
         "saddle-path stability of a given model and equation residuals of simulated paths are numerical: NOT decided",
